@@ -2,7 +2,7 @@
 """Regenerates MANIFEST.json from props.json (claimed checks) and the list of all property ids."""
 import json, os
 ROOT = os.path.dirname(os.path.abspath(__file__))
-props = json.load(open(os.path.join(ROOT, "props.json")))
+props = {fn[:-5]: json.load(open(os.path.join(ROOT, "props.d", fn))) for fn in sorted(os.listdir(os.path.join(ROOT, "props.d"))) if fn.endswith(".json")}
 ids = [json.loads(l)["id"] for l in open(os.path.join(ROOT, "properties.jsonl")) if l.strip()]
 na_reasons = {}
 p = os.path.join(ROOT, "not_applicable.json")
